@@ -31,7 +31,7 @@ def ext_event_as_future(ex, state, args, kwargs, sv):
     k = z3.String(fresh_name("kwkey"))
     passed = _has_key(ex, state, kw, k)
     published = _has_key(ex, ex.unit_pre, pub, k)
-    own = simp(disj([z3.And(gd, a.t == k) for gd, a in alts_of(da) if isinstance(a, VStr)]))
+    own = simp(disj([z3.And(gd, a.t == k, z3.Length(a.t) > 0) for gd, a in alts_of(da) if isinstance(a, VStr)]))
     ex.oblige("handler-kwargs", state, passed == z3.Or(published, own),
               info={"clause": "kwargs handed to the handler == published kwargs (+ this handler's details argument)"})
     # ---- re-entrancy: the handler may unsubscribe itself (removes its subscription from the live list)
